@@ -1,6 +1,6 @@
 (* C01 — at-least-once delivery: no acknowledged message is lost.  Property theorems only. *)
 From Coq Require Import List NArith ZArith.
-From NSQV Require Import model.Core proofs.CoreBase proofs.CoreOwes proofs.CoreFlow.
+From NSQV Require Import model.Core proofs.CoreBase proofs.CoreOwes proofs.CoreFlow proofs.CoreLive.
 Import ListNotations.
 Open Scope N_scope.
 
@@ -54,6 +54,29 @@ Theorem C01_queued_deliverable : forall cfg s k kl t c ch id m q' now,
   snd (step cfg s (ODeliver k id now)) = RDelivered (m_att (bump m)).
 Proof. exact resume_enabled. Qed.
 Print Assumptions C01_queued_deliverable.
+
+(* (a)+(b) composed over operations, from ANY state: wherever an unfinished message of a
+   durable channel sits — queued, in flight (its holder silent or gone), deferred — the two
+   scans, once their clock has reached the channel's horizon (its latest deadline / release
+   time), leave it in the channel's queue, where (c) applies *)
+Theorem C01_back_to_queue : forall cfg s t c ch x,
+  get_chan s t c = Some ch -> c_eph ch = false -> In x (live_ids ch) ->
+  let now := horizon ch in
+  exists ch', get_chan (run cfg s [OScanInFlight t c now; OScanDeferred t c now]) t c = Some ch'
+              /\ In x (map m_id (c_queue ch')).
+Proof. exact back_to_queue. Qed.
+Print Assumptions C01_back_to_queue.
+
+Example C01_back_to_queue_witness :
+  let cfg := mkCfg 5 900000000000%Z in
+  let s := run cfg init [OCreateTopic 1 false; OCreateChan 1 1 false false 0%Z; OConnect 7 5000%Z;
+                         OSub 7 1 1 false false 1%Z; ORdy 7 2%Z; OPub 1 false [10;11] 20 0%Z 1%Z;
+                         ODeliver 7 10 2%Z; ODeliver 7 11 2%Z; OReq 7 11 30000%Z 3%Z; ODisconnect 7] in
+  match get_chan s 1 1 with
+  | Some ch => (live_ids ch, map m_id (c_queue ch), horizon ch) = ([10; 11], [], 30003%Z)
+  | None => False
+  end.
+Proof. vm_compute. reflexivity. Qed.
 
 (* non-vacuity: disk overflow + requeue + timeout + disconnect with a message in flight
    + a channel created between publish and pump; message 11 is still accounted for *)
